@@ -5,83 +5,108 @@ Set Implicit Arguments. Unset Strict Implicit. Unset Printing Implicit Defensive
 Import GRing.Theory.
 Local Open Scope ring_scope.
 
+Section Base.
+Variable F : fieldType.
+Definition mx_of r c (a : mat F) : 'M[F]_(r,c) := \matrix_(i < r, j < c) nth 0 (nth [::] a i) j.
+Definition cv_of n (v : vec F) : 'cV[F]_n := \col_(i < n) nth 0 v i.
+Definition rv_of n (v : vec F) : 'rV[F]_n := \row_(i < n) nth 0 v i.
+
+Lemma nth_vmk n (f : nat -> F) i : (i < n)%N -> nth 0 (vmk n f) i = f i.
+Proof. by move=> Hi; rewrite /vmk nth_mkseq. Qed.
+Lemma nth_mmk r c (f : nat -> nat -> F) i j : (i < r)%N -> (j < c)%N -> nth 0 (nth [::] (mmk r c f) i) j = f i j.
+Proof. by move=> Hi Hj; rewrite /mmk nth_mkseq // nth_mkseq. Qed.
+Lemma mx_of_mmk r c (f : nat -> nat -> F) : mx_of r c (mmk r c f) = \matrix_(i < r, j < c) f i j.
+Proof. by apply/matrixP => i j; rewrite !mxE nth_mmk. Qed.
+Lemma cv_of_vmk n (f : nat -> F) : cv_of n (vmk n f) = \col_(i < n) f i.
+Proof. by apply/matrixP => i j; rewrite !mxE nth_vmk. Qed.
+Lemma rv_of_vmk n (f : nat -> F) : rv_of n (vmk n f) = \row_(i < n) f i.
+Proof. by apply/matrixP => i j; rewrite !mxE nth_vmk. Qed.
+Lemma rv_of_tr n (v : vec F) : rv_of n v = (cv_of n v)^T.
+Proof. by apply/matrixP => i j; rewrite !mxE. Qed.
+Lemma cv_of_tr n (v : vec F) : cv_of n v = (rv_of n v)^T.
+Proof. by apply/matrixP => i j; rewrite !mxE. Qed.
+Lemma mx_of_row r c (a : mat F) (i : 'I_r) : rv_of c (mrow a i) = row i (mx_of r c a).
+Proof. by apply/matrixP => k j; rewrite !mxE. Qed.
+Lemma mx_of_ext r c (a b : mat F) :
+  (forall i j, (i < r)%N -> (j < c)%N -> nth 0 (nth [::] a i) j = nth 0 (nth [::] b i) j) ->
+  mx_of r c a = mx_of r c b.
+Proof. by move=> H; apply/matrixP => i j; rewrite !mxE H. Qed.
+End Base.
+
 Section Ref.
 Variable F : fieldType.
-(* oltb is not used by any field-level theorem; sqrt is the identity here
-   (the real-closed instance is in Theory/QSMChol.v) *)
+(* The square root and the order test are parameters: field-level theorems hold for any choice;
+   the real-closed-field theorems (Cholesky) instantiate them with Num.sqrt and <. *)
+Variables (sq : F -> F) (lt : F -> F -> bool).
 Definition fops : Ops F :=
-  MkOps 0 1 +%R *%R (fun x y => x - y) -%R GRing.inv (fun x y => x / y) (fun x => x) (fun _ _ => false).
+  MkOps 0 1 +%R *%R (fun x y => x - y) -%R GRing.inv (fun x y => x / y) sq lt.
 
 Notation vget := (vget fops). Notation mget := (mget fops).
 
-Definition mx_of r c (a : mat F) : 'M[F]_(r,c) := \matrix_(i < r, j < c) mget a i j.
-Definition cv_of n (v : vec F) : 'cV[F]_n := \col_(i < n) vget v i.
-Definition rv_of n (v : vec F) : 'rV[F]_n := \row_(i < n) vget v i.
-
-Lemma vget_vmk n f i : (i < n)%N -> vget (vmk n f) i = f i.
-Proof. by move=> Hi; rewrite /vget /vmk nth_mkseq. Qed.
-Lemma mget_mmk r c f i j : (i < r)%N -> (j < c)%N -> mget (mmk r c f) i j = f i j.
-Proof. by move=> Hi Hj; rewrite /mget /mmk nth_mkseq // nth_mkseq. Qed.
+Lemma vget_vmk n (f : nat -> F) i : (i < n)%N -> vget (vmk n f) i = f i.
+Proof. exact: nth_vmk. Qed.
+Lemma mget_mmk r c (f : nat -> nat -> F) i j : (i < r)%N -> (j < c)%N -> mget (mmk r c f) i j = f i j.
+Proof. exact: nth_mmk. Qed.
 Lemma mrow_mget (a : mat F) i j : vget (mrow a i) j = mget a i j.
 Proof. by []. Qed.
 Lemma sumnE n (f : nat -> F) : sumn fops n f = \sum_(k < n) f k.
 Proof. by rewrite -(big_mkord xpredT) /index_iota subn0 unlock. Qed.
 
-Lemma mx_of_mmk r c f : mx_of r c (mmk r c f) = \matrix_(i < r, j < c) f i j.
-Proof. by apply/matrixP => i j; rewrite !mxE mget_mmk. Qed.
-Lemma cv_of_vmk n f : cv_of n (vmk n f) = \col_(i < n) f i.
-Proof. by apply/matrixP => i j; rewrite !mxE vget_vmk. Qed.
-Lemma rv_of_vmk n f : rv_of n (vmk n f) = \row_(i < n) f i.
-Proof. by apply/matrixP => i j; rewrite !mxE vget_vmk. Qed.
-Lemma rv_of_tr n v : rv_of n v = (cv_of n v)^T.
-Proof. by apply/matrixP => i j; rewrite !mxE. Qed.
-Lemma cv_of_tr n v : cv_of n v = (rv_of n v)^T.
-Proof. by apply/matrixP => i j; rewrite !mxE. Qed.
-
 Lemma mx_of_lzero r c : mx_of r c (lzero fops r c) = 0.
-Proof. by apply/matrixP => i j; rewrite !mxE mget_mmk. Qed.
+Proof. by apply/matrixP => i j; rewrite !mxE nth_mmk. Qed.
 Lemma mx_of_lid n : mx_of n n (lid fops n) = 1%:M.
-Proof. by apply/matrixP => i j; rewrite !mxE mget_mmk // -val_eqE /=; case: eqP. Qed.
+Proof. by apply/matrixP => i j; rewrite !mxE nth_mmk // -val_eqE /=; case: eqP. Qed.
 Lemma mx_of_lmul r m c a b : mx_of r c (lmul fops r m c a b) = mx_of r m a *m mx_of m c b.
-Proof. by apply/matrixP => i j; rewrite !mxE mget_mmk // sumnE; apply: eq_bigr => k _; rewrite !mxE. Qed.
+Proof. by apply/matrixP => i j; rewrite !mxE nth_mmk // sumnE; apply: eq_bigr => k _; rewrite !mxE. Qed.
 Lemma mx_of_ladd r c a b : mx_of r c (ladd fops r c a b) = mx_of r c a + mx_of r c b.
-Proof. by apply/matrixP => i j; rewrite !mxE mget_mmk. Qed.
+Proof. by apply/matrixP => i j; rewrite !mxE nth_mmk. Qed.
 Lemma mx_of_lsub r c a b : mx_of r c (lsub fops r c a b) = mx_of r c a - mx_of r c b.
-Proof. by apply/matrixP => i j; rewrite !mxE mget_mmk. Qed.
+Proof. by apply/matrixP => i j; rewrite !mxE nth_mmk. Qed.
 Lemma mx_of_lneg r c a : mx_of r c (lneg fops r c a) = - mx_of r c a.
-Proof. by apply/matrixP => i j; rewrite !mxE mget_mmk. Qed.
+Proof. by apply/matrixP => i j; rewrite !mxE nth_mmk. Qed.
 Lemma mx_of_lscale r c s a : mx_of r c (lscale fops r c s a) = s *: mx_of r c a.
-Proof. by apply/matrixP => i j; rewrite !mxE mget_mmk. Qed.
+Proof. by apply/matrixP => i j; rewrite !mxE nth_mmk. Qed.
+Lemma mx_of_lhad r c a b : mx_of r c (lhad fops r c a b) = \matrix_(i, j) (mx_of r c a i j * mx_of r c b i j).
+Proof. by apply/matrixP => i j; rewrite !mxE nth_mmk. Qed.
 Lemma mx_of_ltr r c a : mx_of c r (ltr fops r c a) = (mx_of r c a)^T.
-Proof. by apply/matrixP => i j; rewrite !mxE mget_mmk. Qed.
+Proof. by apply/matrixP => i j; rewrite !mxE nth_mmk. Qed.
 Lemma mx_of_louter r c u v : mx_of r c (louter fops r c u v) = cv_of r u *m rv_of c v.
-Proof. by apply/matrixP => i j; rewrite !mxE mget_mmk // big_ord1 !mxE. Qed.
+Proof. by apply/matrixP => i j; rewrite !mxE nth_mmk // big_ord1 !mxE. Qed.
 Lemma mx_of_lcol n v : mx_of n 1 (lcol fops n v) = cv_of n v.
-Proof. by apply/matrixP => i j; rewrite !mxE mget_mmk. Qed.
+Proof. by apply/matrixP => i j; rewrite !mxE nth_mmk. Qed.
 Lemma mx_of_lrow n v : mx_of 1 n (lrow fops n v) = rv_of n v.
-Proof. by apply/matrixP => i j; rewrite !mxE mget_mmk. Qed.
+Proof. by apply/matrixP => i j; rewrite !mxE nth_mmk. Qed.
 Lemma mx_of_ldiagm n d : mx_of n n (ldiagm fops n d) = diag_mx (rv_of n d).
 Proof.
-apply/matrixP => i j; rewrite !mxE mget_mmk // -val_eqE /=.
+apply/matrixP => i j; rewrite !mxE nth_mmk // -val_eqE /=.
 by case: eqP => _; rewrite ?mulr1n ?mulr0n.
 Qed.
 Lemma ldotE n u v : ldot fops n u v = \sum_(k < n) vget u k * vget v k.
 Proof. by rewrite /ldot sumnE. Qed.
+Lemma ldot_mx n u v : ldot fops n u v = (rv_of n u *m cv_of n v) 0 0.
+Proof. by rewrite ldotE mxE; apply: eq_bigr => k _; rewrite !mxE. Qed.
 Lemma cv_of_lmatvec r c a v : cv_of r (lmatvec fops r c a v) = mx_of r c a *m cv_of c v.
-Proof. by apply/matrixP => i j; rewrite !mxE vget_vmk // sumnE; apply: eq_bigr => k _; rewrite !mxE. Qed.
+Proof. by apply/matrixP => i j; rewrite !mxE nth_vmk // sumnE; apply: eq_bigr => k _; rewrite !mxE. Qed.
 Lemma rv_of_lvecmat r c v a : rv_of c (lvecmat fops r c v a) = rv_of r v *m mx_of r c a.
-Proof. by apply/matrixP => i j; rewrite !mxE vget_vmk // sumnE; apply: eq_bigr => k _; rewrite !mxE. Qed.
+Proof. by apply/matrixP => i j; rewrite !mxE nth_vmk // sumnE; apply: eq_bigr => k _; rewrite !mxE. Qed.
 Lemma cv_of_vadd n u v : cv_of n (vadd fops n u v) = cv_of n u + cv_of n v.
-Proof. by apply/matrixP => i j; rewrite !mxE vget_vmk. Qed.
+Proof. by apply/matrixP => i j; rewrite !mxE nth_vmk. Qed.
 Lemma cv_of_vsub n u v : cv_of n (vsub fops n u v) = cv_of n u - cv_of n v.
-Proof. by apply/matrixP => i j; rewrite !mxE vget_vmk. Qed.
+Proof. by apply/matrixP => i j; rewrite !mxE nth_vmk. Qed.
 Lemma cv_of_vneg n u : cv_of n (vneg fops n u) = - cv_of n u.
-Proof. by apply/matrixP => i j; rewrite !mxE vget_vmk. Qed.
+Proof. by apply/matrixP => i j; rewrite !mxE nth_vmk. Qed.
 Lemma cv_of_vscale n s u : cv_of n (vscale fops n s u) = s *: cv_of n u.
-Proof. by apply/matrixP => i j; rewrite !mxE vget_vmk. Qed.
+Proof. by apply/matrixP => i j; rewrite !mxE nth_vmk. Qed.
 Lemma cv_of_vzero n : cv_of n (vzero fops n) = 0.
-Proof. by apply/matrixP => i j; rewrite !mxE vget_vmk. Qed.
-Lemma mx_of_row r c (a : mat F) (i : 'I_r) : rv_of c (mrow a i) = row i (mx_of r c a).
-Proof. by apply/matrixP => k j; rewrite !mxE. Qed.
+Proof. by apply/matrixP => i j; rewrite !mxE nth_vmk. Qed.
+Lemma rv_of_vadd n u v : rv_of n (vadd fops n u v) = rv_of n u + rv_of n v.
+Proof. by apply/matrixP => i j; rewrite !mxE nth_vmk. Qed.
+Lemma rv_of_vsub n u v : rv_of n (vsub fops n u v) = rv_of n u - rv_of n v.
+Proof. by apply/matrixP => i j; rewrite !mxE nth_vmk. Qed.
+Lemma rv_of_vneg n u : rv_of n (vneg fops n u) = - rv_of n u.
+Proof. by apply/matrixP => i j; rewrite !mxE nth_vmk. Qed.
+Lemma rv_of_vscale n s u : rv_of n (vscale fops n s u) = s *: rv_of n u.
+Proof. by apply/matrixP => i j; rewrite !mxE nth_vmk. Qed.
+Lemma rv_of_vzero n : rv_of n (vzero fops n) = 0.
+Proof. by apply/matrixP => i j; rewrite !mxE nth_vmk. Qed.
 End Ref.
-
